@@ -155,7 +155,11 @@ func cmdCheck(args []string) {
 			limit = 40.0
 		}
 		for _, r := range all {
-			if r.Status == "discharged" && r.Res.Time <= limit {
+			t := r.Res.Time
+			if r.Res.MaxPart > 0 {
+				t = r.Res.MaxPart
+			}
+			if r.Status == "discharged" && t <= limit {
 				names = append(names, r.Obl.Name)
 			}
 		}
